@@ -13,7 +13,8 @@ RULE = ('2..16 threads released by a barrier, each running 40 seeded operations 
         'inputs (incl. HMAC/HKDF/PBKDF2 keys longer than the 64-byte block), with sched_yield injected between operations; many short rounds.  Oracles: ThreadSanitizer (instrumented C/C++ of '
         'library + harness), helgrind and DRD on the uninstrumented -O3 build (assembly accesses included), and equality of every '
         'per-thread result with the same operation executed sequentially after the threads are joined; cold starts: one fresh process per '
-        'operation kind (24) whose 8 threads begin with that kind, so lazily initialised state is first touched concurrently.  Detector liveness: a planted '
+        'operation kind (24) whose 8 threads begin with that kind, so lazily initialised state is first touched concurrently; a run with the '
+        'system random source dead (getrandom -> ENOSYS), where the PRNG is deterministic and its output is compared as well.  Detector liveness: a planted '
         'unsynchronised counter must be reported by each detector.  distinct = (build+detector, thread count, round)')
 ASSUME = ['schedules are sampled; happens-before detectors report a race even when the bad interleaving did not occur',
           'the CHECK_ACQUIRE_RELEASE debugging build has one documented global flag and is excluded']
@@ -69,6 +70,8 @@ def run(ctx):
             # sequential warm-up before them (lazily initialised tables/caches are first touched concurrently)
             for kind in range(24):
                 ctx.run_harness(b, exe, 'mt-cold', cases=2 if not ctx.thorough else 6, extra_args=['--arg', 'cold:%d' % kind], shards=1, prop='C16', timeout=3000)
+            # the system random source dead for the whole process: what the library does to cope runs on 8 threads at once
+            ctx.run_harness(b, exe, 'mt-nosrc', cases=6 if not ctx.thorough else 40, extra_args=['--arg', 'nosrc'], shards=2, prop='C16', timeout=3000)
             ctx.distinct.add('detector|tsan|' + b.cfg.name)
         else:
             for tool in ('helgrind', 'drd'):
